@@ -147,6 +147,79 @@ class Rewriter:
             body = body[:rs] + new + body[q + 1:]
 
 
+    def r13_heap(self, body, heapcalls):
+        """heap-passing form of the pointer layer (template l1).  The node memory that raw pointers address becomes an
+        explicit object `heap`:
+          R14  `let [mut] x = P.get_mut();`  =>  binding removed, every later `x` replaced by `P.get_mut()`
+               (a second live `&mut` into the same heap object is what the borrow checker would refuse; the
+               dereference is pure, so evaluating it at the use is the same access)
+          R13  `P.get()` => `P.hget(heap)`, `P.get_mut()` => `P.hget_mut(heap)`, `P.get_extended()` => `P.hget_extended(heap)`
+               and `heap` is appended to the arguments of the listed heap-mode callees
+          R15  `Box::into_raw(Box::new(E))` => `heap.alloc(E)`"""
+        while True:
+            m = mask(body)
+            mt = re.search(r'\blet\s+(?:mut\s+)?(\w+)\s*=\s*([\w\.]+?)\s*\.\s*get_mut\s*\(\s*\)\s*;[ \t]*\n?', m)
+            if not mt:
+                break
+            name, recv = mt.group(1), body[mt.start(2):mt.end(2)]
+            self.note('R14', body[mt.start():mt.end()])
+            rest = body[mt.end():]
+            rest = re.sub(r'(?<![\w\.])%s\b(?!\s*:)' % re.escape(name), recv + '.get_mut()', rest)
+            body = body[:mt.start()] + rest
+        def _alloc(mt):
+            self.note('R15', mt.group(0))
+            return 'heap.alloc(%s)' % mt.group(1)
+        body = re.sub(r'Box::into_raw\(\s*Box::new\(\s*(\w+)\s*\)\s*\)', _alloc, body)
+        for a, b in (('get_mut', 'hget_mut'), ('get_extended', 'hget_extended'), ('get', 'hget')):
+            while True:
+                m = mask(body)
+                mt = re.search(r'\.\s*%s\s*\(\s*\)' % a, m)
+                if not mt:
+                    break
+                self.note('R13', body[receiver_start(m, mt.start()):mt.end()])
+                body = body[:mt.start()] + '.%s(heap)' % b + body[mt.end():]
+        for name in heapcalls:
+            # forms: `name` (any call .name( / ::name( ), `Type::name` (that path only), `name/N` (calls with exactly N arguments)
+            arity = None
+            if '/' in name:
+                name, ar_ = name.split('/')
+                arity = int(ar_)
+            if '::' in name:
+                rx = re.compile(r'\b%s\s*\(' % re.escape(name).replace('::', r'\s*::\s*'))
+            else:
+                rx = re.compile(r'(?:\.|::)\s*%s\s*\(' % re.escape(name))
+            pos = 0
+            while True:
+                m = mask(body)
+                mt = rx.search(m, pos)
+                if not mt:
+                    break
+                op = mt.end() - 1
+                cl = match_close(m, op)
+                inner = body[op + 1:cl].strip()
+                if arity is not None:
+                    n_, depth_ = (1 if inner else 0), 0
+                    for ch_ in m[op + 1:cl]:
+                        if ch_ in '([{':
+                            depth_ += 1
+                        elif ch_ in ')]}':
+                            depth_ -= 1
+                        elif ch_ == ',' and depth_ == 0:
+                            n_ += 1
+                    if n_ != arity:
+                        pos = op + 1
+                        continue
+                if re.search(r'(^|,)\s*heap\s*$', m[op + 1:cl]):
+                    pos = op + 1
+                    continue
+                self.note('R13', 'heap argument: ' + body[mt.start():cl + 1])
+                new = body[op + 1:cl].rstrip()
+                new = (new + ', heap') if inner else 'heap'
+                body = body[:op + 1] + new + body[cl:]
+                pos = op + 1
+        return body
+
+
 # ----------------------------------------------------------------------------------------------
 # signature handling
 # ----------------------------------------------------------------------------------------------
@@ -345,6 +418,7 @@ def expand(template_path, repo_src_dir, canary=False):
         return sources[rel]
 
     tl = open(template_path).read().split('\n')
+    default_heapcalls = []
     i = 0
     while i < len(tl):
         ln = tl[i]
@@ -373,6 +447,10 @@ def expand(template_path, repo_src_dir, canary=False):
             text = re.sub(r'\n\s*\n', '\n', text)
             gen.types.append({'file': kv['file'], 'name': kv['name'], 'sha256': hashlib.sha256(text.encode()).hexdigest()})
             gen.emit(text, {'fn': 'type ' + kv['name'], 'kind': 'type', 'tags': []})
+            i += 1
+            continue
+        if d.startswith('HEAPCALLS'):
+            default_heapcalls = [x for x in d.split(None, 1)[1].replace(' ', '').split(',') if x]
             i += 1
             continue
         if d.startswith('CANARY'):
@@ -517,6 +595,15 @@ def expand(template_path, repo_src_dir, canary=False):
                 rs = receiver_start(mm, mt.start())
                 rw.note('R11', body[rs:mt.end()])
                 body = body[:rs] + 'self.at(' + body[rs:mt.start()].rstrip() + ')' + body[mt.end():]
+        if kv.get('heap'):
+            body = rw.r13_heap(body, [x for x in kv.get('heapcalls', '').split(',') if x] + [x for x in default_heapcalls if x not in kv.get('heapcalls', '').split(',')])
+            params = params.rstrip()
+            if re.match(r'\(\s*mut\s+self\b', params):
+                # R16: `mut self` was needed only for get_mut's `&mut self` receiver; hget_mut takes `&self`
+                rw.note('R16', 'mut self => self')
+                params = re.sub(r'\(\s*mut\s+self\b', '(self', params, count=1)
+            inner = params[1:-1].strip()
+            params = '(' + (inner.rstrip(',') + ', ' if inner else '') + 'heap: &mut Heap<K, V>)'
         # conditional proof lines: `//?/regex/ text` is kept only if the code matches, `//!/regex/ text` only if it does not
         def cond_(t):
             outl = []
